@@ -73,31 +73,39 @@ def merge (s o : ORSet) : ORSet :=
     clock := mergeClock s.clock o.clock
     delta := newDelta }
 
-/-- Delta(): nil when nothing was added or removed since the last reset -/
+/-- first loop of Delta(): `if c, ok := s.clock[dt.nodeID]; ok { if c > d.clock[dt.nodeID] { d.clock[dt.nodeID] = c } }` -/
+def deltaAddedStep (sclock clk : AMap Nat) (dt : Dot) : AMap Nat :=
+  match sclock.get? dt.nodeID with
+  | some c => if c > AMap.getD clk dt.nodeID 0 then AMap.set clk dt.nodeID c else clk
+  | none => clk
+
+/-- second loop of Delta(): `if dt.counter > d.clock[dt.nodeID] { d.clock[dt.nodeID] = dt.counter }` -/
+def deltaRemovedStep (clk : AMap Nat) (dt : Dot) : AMap Nat :=
+  if dt.counter > AMap.getD clk dt.nodeID 0 then AMap.set clk dt.nodeID dt.counter else clk
+
+/-- Delta(): nil when nothing was added or removed since the last reset; else the added dots with
+    the node's WHOLE clock entry for every node that produced one, plus the removed dots' counters -/
 def delta? (s : ORSet) : Option ORSet :=
   if s.delta.added.isEmpty && s.delta.removed.isEmpty then none
   else
-    let clk1 : AMap Nat := s.delta.added.foldl (fun (clk : AMap Nat) p =>
-      p.2.foldl (fun (clk : AMap Nat) dt =>
-        match s.clock.get? dt.nodeID with
-        | some c => if c > AMap.getD clk dt.nodeID 0 then AMap.set clk dt.nodeID c else clk
-        | none => clk) clk) ([] : AMap Nat)
-    let clk2 : AMap Nat := s.delta.removed.foldl (fun (clk : AMap Nat) p =>
-      p.2.foldl (fun (clk : AMap Nat) dt =>
-        if dt.counter > AMap.getD clk dt.nodeID 0 then AMap.set clk dt.nodeID dt.counter else clk) clk) clk1
+    let clk1 : AMap Nat := s.delta.added.foldl (fun (clk : AMap Nat) p => p.2.foldl (deltaAddedStep s.clock) clk) ([] : AMap Nat)
+    let clk2 : AMap Nat := s.delta.removed.foldl (fun (clk : AMap Nat) p => p.2.foldl deltaRemovedStep clk) clk1
     some { entries := s.delta.added, clock := clk2, delta := newDelta }
 
 def resetDelta (s : ORSet) : ORSet := { s with delta := newDelta }
 
 def clone (s : ORSet) : ORSet := s
 
+/-- one iteration of Compact's inner loop:
+    `if existing, ok := highest[d.nodeID]; !ok || d.counter > existing.counter { highest[d.nodeID] = d }` -/
+def compactStep (h : AMap Nat) (d : Dot) : AMap Nat :=
+  match AMap.get? h d.nodeID with
+  | none => AMap.set h d.nodeID d.counter
+  | some c => if d.counter > c then AMap.set h d.nodeID d.counter else h
+
 /-- highest-counter dot per node, emitted in node order -/
 def compactDots (dots : List Dot) : List Dot :=
-  let hi : AMap Nat := dots.foldl (fun h d =>
-    match AMap.get? h d.nodeID with
-    | none => AMap.set h d.nodeID d.counter
-    | some c => if d.counter > c then AMap.set h d.nodeID d.counter else h) ([] : AMap Nat)
-  hi.map (fun p => ⟨p.1, p.2⟩)
+  (dots.foldl compactStep ([] : AMap Nat)).map (fun p => ⟨p.1, p.2⟩)
 
 /-- Compact(): drops entries with no dots, keeps the highest dot per node; fresh delta -/
 def compact (s : ORSet) : ORSet :=
@@ -106,6 +114,27 @@ def compact (s : ORSet) : ORSet :=
     delta := newDelta }
 
 def fromRawState (es : AMap (List Dot)) (clk : AMap Nat) : ORSet := ⟨es, clk, newDelta⟩
+
+/-- representation invariant: the maps are maps (sorted, no duplicate keys), and the causal context
+    covers every dot the set holds or has recorded in its pending delta (`dots ≤ clock`) -/
+structure WF (s : ORSet) : Prop where
+  entries_sorted : s.entries.Sorted
+  clock_sorted : s.clock.Sorted
+  dots_le : ∀ e d, d ∈ s.dotsOf e → d.counter ≤ s.clock.getD d.nodeID 0
+  added_sorted : s.delta.added.Sorted
+  added_le : ∀ e d, d ∈ s.delta.added.getD e [] → d.counter ≤ s.clock.getD d.nodeID 0
+
+/-- every value obtainable from `new` by the public API: any operation sequence with any node ids on
+    any replicas, merges of any two reachable values in any grouping, deltas, compaction -/
+inductive Reachable : ORSet → Prop
+  | new : Reachable new
+  | add {s} (n e : Nat) : Reachable s → Reachable (s.add n e)
+  | remove {s} (e : Nat) : Reachable s → Reachable (s.remove e)
+  | merge {s o} : Reachable s → Reachable o → Reachable (s.merge o)
+  | delta {s d} : Reachable s → s.delta? = some d → Reachable d
+  | resetDelta {s} : Reachable s → Reachable s.resetDelta
+  | clone {s} : Reachable s → Reachable s.clone
+  | compact {s} : Reachable s → Reachable s.compact
 
 end ORSet
 end GoaktVerif.Model.Crdt
